@@ -1,0 +1,7 @@
+//go:build !verif
+
+package modules
+
+// verifPoint is a yield point for the verification harness; it is a no-op
+// unless built with the "verif" tag.
+func verifPoint(_, _ string) {}
